@@ -13,8 +13,11 @@ def gen_upstream(rng):
     status = rng.choice(["20"] * 12 + ["10", "11", "30", "31", "40", "44", "51", "53", "59", "60", "69"] * 2 + ["09", "70", "2", "+2", "200", "ab"])
     metas = ["text/gemini", "text/plain; charset=iso-8859-1", "text/plain; charset=shift_jis", "text/plain;charset=utf-16", "application/octet-stream",
              "image/png", "text/gemini; lang=fr", "gemini://elsewhere.example/x", "Not found é世界", "", "a\nb", "a\rb", "m" * 1024, "m" * 1025,
-             "text/plain; charset=bogus"]
-    meta = rng.choice(metas[:9]) if rng.random() < 0.8 else rng.choice(metas)
+             "text/plain; charset=bogus",
+             # characters that str.splitlines() / str.isspace() treat as line or space boundaries but that are ordinary meta bytes
+             "Enter your name\x0c(second page)", "text/plain; charset=utf-8\u0085", "gemini://elsewhere.example/a\u2028b", "tab\there\x0bvt", "x\x1c\x1d\x1ey",
+             "trailing space ", "  two leading spaces", "para\u2029graph", "nbsp\u00a0inside", "\ufeffbom first"]
+    meta = rng.choice(metas[:9]) if rng.random() < 0.7 else rng.choice(metas)
     bodies = [b"", b"hello\n", "café".encode("latin-1"), "日本語".encode("shift_jis"), "hi".encode("utf-16"), bytes(range(256))[: rng.randint(0, 64)],
               b"x" * rng.choice([63, 64, 65, 90]), b"20 fake\r\nsecond header\r\n"]
     body = rng.choice(bodies) if status.startswith("2") or rng.random() < 0.15 else b""
@@ -92,6 +95,9 @@ def run(tier, seed):
         for body in (b"\xff\xfe\x00raw \xe9\xe8 bytes\x80\n", b"\x80", b"caf\xe9"):
             ups.append(("stream", b"20 " + meta + b"\r\n" + body, None))
             ups.append(("stream", (b"20" if meta == b"" else b"21 " + meta) + b"\r\n" + body, None))
+    for st in (b"10", b"20", b"31", b"51"):
+        for m_ in ("Enter your name\x0c(second page)", "text/plain; charset=utf-8\u0085", "a\u2028b", "x\x1c\x1d\x1ey", "v\x0bt", "para\u2029graph", "trailing "):
+            ups.append(("stream", st + b" " + m_.encode("utf-8") + b"\r\n" + (b"body stays\n" if st == b"20" else b""), None))
     ups += [gen_upstream(rng) for _ in range(n)]
     forced = {}
     def chunker(data):
